@@ -447,7 +447,8 @@ RULES = [
 LEVEL_TEXT = ("Static necessary conditions on MIR for 'never both complete differently, complete at most once': reaching-definition analysis shows that Success is "
               "returned only with a terminal stage stored (disjoint from the message stages), in the pong/peng arms with complementary initiator flags; "
               "both arms feed select_algorithm and derive_master_key with the same roles; the stage/ephemeral-key invariant; retransmission while retries "
-              "remain and core hand-over before Initialized; the dual-open role switch is a strict comparison of the two salted ids.")
+              "remain and core hand-over before Initialized; the dual-open role switch is a strict comparison of the two salted ids."
+              " Error discipline on the recovery chain: the give-up error of the handshake tick is propagated to the owner of the pending entry, which deletes it.")
 LEVEL_NOTE = ("Partial (the smaller part): agreement and recovery over all interleavings of loss, duplication, reordering and dual open, and the bounded reconnection "
               "time, quantify over the product of two retransmitting state machines' histories and are not decided by this family.")
 TECHNIQUE = "MIR reaching definitions on a state field, control dependence on variant/comparison edges, sibling agreement"
